@@ -696,30 +696,45 @@ theorem build_parse_roundtrip (h : Heap) (v s m : String) (ver : Option String) 
       ⟨⟨.codedConcept, d⟩, by simp, rfl, g3, g4, g5, g6⟩, fun _ => ⟨by omega, by simp⟩, (by intro hc; cases hc), hdc⟩
     simp only [stepH, hfd]; simp
 
-/-- **through a written file** (`dcmwrite` → `dcmread` → `from_dataset`): pydicom's reader drops the padding characters
-(trailing blanks and NULs), nothing else.  The concept read back is well-formed, holds the value in the same attribute,
-and its four properties are the four arguments without trailing padding; a string survives unchanged **iff** it does
-not end in a padding character, and then the dataset read back is the dataset written.  (Hand model `fileRoundTrip`,
-tied by the stream `file-strings`.) -/
+/-- **through a written file** (`dcmwrite` → `dcmread` → `from_dataset`, the item written WITHOUT a SpecificCharacterSet, i.e.
+in pydicom's default repertoire ISO 8859-1).  Hand model `readBack kw` / `fileRoundTrip` of writer + reader, tied by the stream
+`file-strings` (tie C only, nothing regenerated): a code point above 255 becomes `?`; the reader drops trailing blanks and
+NULs from the SH / LO / UC values and ALL trailing white space (`rstrip()`: also TAB, LF, CR, …, but not NUL) from the UR value
+of URNCodeValue; nothing else changes.  The concept read back is well-formed, holds the value in the same attribute, and its
+four properties are `readBack` of the four arguments; a string survives unchanged **iff** all its characters are in the
+default repertoire and it does not end in a character the reader strips from that attribute, and when all four do the dataset
+read back is the dataset written.  What is claimed of the library is therefore: arguments within ISO 8859-1 that do not end in
+blank / NUL (URN / URL values: in white space) are read back unchanged. -/
 theorem file_roundtrip (v s m : String) (ver : Option String) (d : DS) (hd : mkConcept v s m ver = .ok d) :
     (Obj.concept (fileRoundTrip d)).wf ∧
-    DS.get (fileRoundTrip d) (stdKeyword v) = some (stripTrailing v) ∧
-    prop (fileRoundTrip d) "value" = .ok (some (stripTrailing v)) ∧
-    prop (fileRoundTrip d) "meaning" = .ok (some (stripTrailing m)) ∧
-    prop (fileRoundTrip d) "scheme_designator" = .ok (some (stripTrailing s)) ∧
-    prop (fileRoundTrip d) "scheme_version" = .ok (ver.map stripTrailing) ∧
-    (∀ x : String, stripTrailing x = x ↔ ∀ c, x.toList.getLast? = some c → (c == ' ' || c == '\x00') = false) ∧
-    (stripTrailing v = v → stripTrailing s = s → stripTrailing m = m → ver.map stripTrailing = ver → fileRoundTrip d = d) := by
+    DS.get (fileRoundTrip d) (stdKeyword v) = some (readBack (stdKeyword v) v) ∧
+    prop (fileRoundTrip d) "value" = .ok (some (readBack (stdKeyword v) v)) ∧
+    prop (fileRoundTrip d) "meaning" = .ok (some (readBack "CodeMeaning" m)) ∧
+    prop (fileRoundTrip d) "scheme_designator" = .ok (some (readBack "CodingSchemeDesignator" s)) ∧
+    prop (fileRoundTrip d) "scheme_version" = .ok (ver.map (readBack "CodingSchemeVersion")) ∧
+    (∀ (kw x : String), readBack kw x = x ↔
+      (∀ c ∈ x.toList, c.val < 256) ∧ (∀ c, x.toList.getLast? = some c → stripSet kw c = false)) ∧
+    (readBack (stdKeyword v) v = v → readBack "CodingSchemeDesignator" s = s → readBack "CodeMeaning" m = m →
+      ver.map (readBack "CodingSchemeVersion") = ver → fileRoundTrip d = d) := by
   obtain ⟨_, _, rfl⟩ := mkConcept_ok v s m ver d hd
   have hrt : fileRoundTrip (builtDS (stdKeyword v) v s m ver) =
-      builtDS (stdKeyword v) (stripTrailing v) (stripTrailing s) (stripTrailing m) (ver.map stripTrailing) := by
+      builtDS (stdKeyword v) (readBack (stdKeyword v) v) (readBack "CodingSchemeDesignator" s) (readBack "CodeMeaning" m)
+        (ver.map (readBack "CodingSchemeVersion")) := by
     cases ver <;> rfl
   rw [hrt]
-  refine ⟨builtDS_wf _ _ _ _ _ (stdKeyword_cases v), ?_, ?_, ?_, ?_, ?_, stripTrailing_eq_self, ?_⟩
+  refine ⟨builtDS_wf _ _ _ _ _ (stdKeyword_cases v), ?_, ?_, ?_, ?_, ?_, readBack_eq_self, ?_⟩
   all_goals first
     | (intro h1 h2 h3 h4; rw [h1, h2, h3, h4])
     | (rcases stdKeyword_cases v with h | h | h <;> rw [h] <;> cases ver <;>
         simp [builtDS, DS.get, List.lookup, prop, valueLookup, firstPresent, propertyAttr])
+
+/-- the audit's witnesses (docs/AUDIT2_D.md): a meaning outside the default repertoire comes back with `?`, a URN with a
+trailing TAB loses it, the same TAB at the end of a plain CodeValue stays -/
+theorem counterexample_file_repertoire_and_ur_whitespace :
+    readBack "CodeMeaning" "Ωmega" = "?mega" ∧ readBack "URNCodeValue" "urn:oid:1.2\t" = "urn:oid:1.2" ∧
+    readBack "CodeValue" "abc\t" = "abc\t" ∧ readBack "URNCodeValue" "urn:oid:1.2\x00" = "urn:oid:1.2\x00" ∧
+    readBack "CodeValue" "abc\x00 " = "abc" := by
+  decide
 
 /-- a 17-character value that ends in a blank sits in LongCodeValue, comes back from a file with 16 characters (still in
 LongCodeValue) and no longer equals the concept that was written — trailing blanks are not part of a DICOM value, so
@@ -842,7 +857,7 @@ example : (runH [⟨.dataset, [("CodeValue", "1"), ("CodeMeaning", "m"), ("Codin
     [HOp.deepcopy 0, HOp.set 1 "CodeMeaning" "x", HOp.del 1 "LongCodeValue"]).2 = [.ok (some 1), .ok none, .error .attribute] := by
   decide
 /-- file round trip: padding goes, an inner or leading blank stays -/
-example : stripTrailing "ab  \x00 " = "ab" ∧ stripTrailing " a b" = " a b" := by decide
+example : stripTrailing "ab  \x00 " = "ab" ∧ stripTrailing " a b" = " a b" ∧ readBack "CodeMeaning" "two words" = "two words" := by decide
 
 /-- `eq_implies_hash_eq_unless_retired`: a CURRENT SRT code (not in the retired table) on both sides satisfies the hypotheses -/
 example : ∀ v, specScheme (.code ⟨some "T-D0050", some "SRT", some "Tissue", none⟩) = some "SRT" →
